@@ -28,8 +28,8 @@ from rtlmc import usbref as U
 
 PROPERTY = "C03"
 TECHNIQUE = "per-cycle explicit-state exploration of USBDataPacketGenerator (standalone and inside USBDevice) with tx_ready free in every cycle"
-LEVEL_TEXT = ("All runs of two data-packet requests from the request families (all four data PIDs, ZLP requests, payloads of 1..6 bytes over a "
-              "small alphabet) under every tx_ready pattern (free choice in every cycle, closure over stall lengths) are enumerated cycle by cycle "
+LEVEL_TEXT = ("All runs of two data-packet requests from the request families (all four data PIDs, ZLP requests, payloads of 1..8 bytes over "
+              "small alphabets) under every tx_ready pattern (free choice in every cycle, closure over stall lengths) are enumerated cycle by cycle "
               "against the real netlist; the accepted wire bytes are compared with the reference encoding.")
 
 LAT = 3                  # admitted request -> tx_valid latency
@@ -55,6 +55,8 @@ def family(name):
                 [(p, pl) for p in (2, 3) for pl in _payloads((0x00, 0xFF, 0xA5), 3, [(1, 2, 3, 4, 5)])])
     if name == "huge":
         return [(p, pl) for p in range(4) for pl in _payloads((0x00, 0xFF, 0xA5, 0x3C), 4, [(0xA5, 0x3C, 0x00, 0xFF, 0x01, 0x80), (8, 7, 6, 5, 4, 3, 2, 1)])]
+    if name == "long":
+        return [(p, pl) for p in (0, 1) for pl in _payloads((0x00, 0xFF), 7)] + [(2, (0x80,) * 8), (3, ())]
     if name == "mid":
         return ([(p, pl) for p in (0, 1) for pl in _payloads((0xA5, 0x00), 2)] + [(2, ()), (3, (0xFF,)), (3, (0x3C, 0xA5, 0xFF))])
     if name == "rep":
@@ -69,10 +71,11 @@ def configs(tier):
         return [c("standalone", ["wide", "mid"]), c("standalone", ["mid", "wide"]), c("standalone", ["full", "full"]),
                 c("device", ["wide", "mid"], token=[]), c("device", ["mid", "wide"], token=[]), c("device", ["full", "full"], token=[]),
                 c("device", ["full", "rep"], token=[4]), c("device", ["mid", "mid"], token=[20, 3])]
-    return [c("standalone", ["huge", "mid"]), c("standalone", ["mid", "huge"]), c("standalone", ["wide", "full"]), c("standalone", ["full", "wide"]),
-            c("device", ["huge", "mid"], token=[]), c("device", ["mid", "huge"], token=[]), c("device", ["wide", "full"], token=[]),
-            c("device", ["full", "wide"], token=[]), c("device", ["wide", "rep"], token=[4]), c("device", ["full", "mid"], token=[3, 20]),
-            c("device", ["mid", "full"], token=[5, 2])]
+    return [c("standalone", ["huge", "full"]), c("standalone", ["full", "huge"]), c("standalone", ["wide", "wide"]), c("standalone", ["long", "mid"]),
+            c("standalone", ["mid", "long"]),
+            c("device", ["huge", "full"], token=[]), c("device", ["full", "huge"], token=[]), c("device", ["wide", "wide"], token=[]),
+            c("device", ["long", "mid"], token=[]), c("device", ["mid", "long"], token=[]),
+            c("device", ["wide", "rep"], token=[4]), c("device", ["full", "mid"], token=[3, 20]), c("device", ["mid", "full"], token=[5, 2])]
 
 
 class GeneratorSpec(Spec):
